@@ -176,6 +176,11 @@ func toAny[V any](xs []V) []any {
 }
 
 func withNotation(pos string, args ...any) []any {
+	if pos != "absent" {
+		// the notation handed to the constructor has a past: it has just refused a malformed source
+		lib.Call(func() { model.Notation().ParseSource("[1, 2, 3(List)") })
+		lib.Call(func() { model.Notation().ParseSource("[1 2](Array)") })
+	}
 	switch pos {
 	case "first":
 		return append([]any{model.Notation()}, args...)
